@@ -4,13 +4,20 @@ Model of the outbound security decisions of the remote target (C05).  Core Lean 
 Mirrored Go code (tree after the four `fix:` commits recorded in notes/C05.md):
 * `framework/module/mxauth.go`            levels `TLSNone < TLSEncrypted < TLSAuthenticated`, `MXNone < MX_MTASTS < MX_DNSSEC`
 * `internal/target/remote/policy_group.go` the policy list (any list here; the driver builds it in the fixed group order)
-* `internal/target/remote/security.go`     `CheckMX` / `CheckConn` of mtasts, sts_preload, dane, dnssec, local_policy; `discoverTLSA` (no CNAME)
+* `internal/target/remote/security.go`     `CheckMX` / `CheckConn` of mtasts, sts_preload, dane, dnssec, local_policy; `discoverTLSA` (incl. the CNAME branch)
 * `internal/target/remote/dane.go`         `verifyDANE` only through its verdict on the record kind (C13 models the function itself)
 * `internal/target/remote/connect.go`      `connect` (verify → unauthenticated TLS → plaintext), `attemptMX`, `newConn`, `connectionForDomain`
 * `internal/target/remote/remote.go`       `Start` (override ⇒ no policies), `AddRcpt`, `BodyNonAtomic` (quarantine), `Close` (return to pool)
 * `internal/smtpconn/pool/pool.go`         `Get` (first usable connection of the key, FIFO) / `Return`
 
+* `framework/dns/dnssec.go`                 `CheckCNAMEAD`, `AuthLookupCNAME`, `AuthLookupTLSA` as oracles over the per-MX facts
+
 External behaviour is data: per-MX facts (`MX`), per-domain facts (`Domain`).  Times (idle limits) are not modelled.
+
+DNS world assumption (resolver oracle): the AD bit of the answer to an address query for a CNAME'd host is the
+conjunction over the chain (alias RRset and address RRset); the TLSA RRset at `_25._tcp.<canonical>` of a CNAME'd
+MX lives in (or below) the zone of the canonical name, so it is never reported authenticated when the address
+RRset of that name is not (`canonTlsaAD`).
 -/
 namespace MaddyVerif.RemoteSec
 
@@ -43,16 +50,29 @@ inductive STS
   | none | testing | enforce
 deriving DecidableEq, Repr
 
+/-- Is the MX host name an alias?  `secure` / `insecure`: the CNAME RRset at the MX name is / is not
+DNSSEC-authenticated. -/
+inductive Alias | none | secure | insecure
+deriving DecidableEq, Repr
+
+/-- For an MX whose name is a CNAME alias, `aAD` / `tlsaAD` / `tlsa` describe the CANONICAL name (address RRset,
+TLSA RRset at `_25._tcp.<canonical>`), `tlsaI` / `tlsaIAD` the TLSA RRset at `_25._tcp.<MX name>` (the initial
+name), `cnameErr` says that the CNAME-type query for the MX name fails (SERVFAIL).  Without an alias the three
+extra fields are not looked at. -/
 structure MX where
   srv      : Nat
   up       : Bool
   starttls : StartTLS
   cert     : Cert
   stsMatch : Bool   -- `policy.Match(mx)`
-  aAD      : Bool   -- AD bit on the address lookup of the MX host
-  tlsaAD   : Bool   -- AD bit on the TLSA lookup
+  aAD      : Bool   -- AD bit of the address RRset of the (canonical) host
+  tlsaAD   : Bool   -- AD bit on the TLSA lookup (canonical name)
   tlsa     : Tlsa
   reqtls   : Bool   -- server implements REQUIRETLS (go-smtp advertises it on TLS sessions only)
+  cname    : Alias := .none
+  tlsaI    : Tlsa := .none   -- TLSA RRset at the initial name (alias only)
+  tlsaIAD  : Bool := false
+  cnameErr : Bool := false
 deriving DecidableEq, Repr
 
 /-- `lookupMX` never returns an empty list (falls back to the domain itself). -/
@@ -126,13 +146,37 @@ inductive Disc
   | recs (t : Tlsa)  -- non-empty authenticated RRset
 deriving DecidableEq, Repr
 
-/-- `daneDelivery.discoverTLSA` for a host without CNAME. -/
+/-- the last lookup of `discoverTLSA` (TLSA at the initial name): error ⇒ failure (a not-found error is "no
+records"), a non-authenticated or empty answer ⇒ no records -/
+def lookupInitial (t : Tlsa) (ad : Bool) : Disc :=
+  match t with
+  | .servfail => .fail
+  | .none => .none
+  | t => if !ad then .none else .recs t
+
+/-- AD bit the resolver reports for the TLSA RRset at the canonical name of an alias (see the file header) -/
+def canonTlsaAD (mx : MX) : Bool := mx.aAD && mx.tlsaAD
+
+/-- `daneDelivery.discoverTLSA`.
+Without alias (`rname == mx`): non-authenticated address records ⇒ skip, else the TLSA RRset of the name.
+With an alias: `adA` = AD of the whole chain; if it is not set the CNAME-type query decides (error ⇒ failure,
+insecure alias ⇒ skip); then the canonical name is tried FIRST (error ⇒ failure; authenticated non-empty RRset ⇒
+these records, no fall-back), and only then the initial name. -/
 def discover (mx : MX) : Disc :=
-  if !mx.aAD then .none                     -- non-authenticated A records: skip
-  else match mx.tlsa with
-    | .servfail => .fail
-    | .none => .none
-    | t => if !mx.tlsaAD then .none else .recs t
+  match mx.cname with
+  | .none =>
+    if !mx.aAD then .none                     -- non-authenticated A records: skip
+    else lookupInitial mx.tlsa mx.tlsaAD
+  | c =>
+    let aliasAD := c == .secure
+    let adA := aliasAD && mx.aAD              -- `CheckCNAMEAD`
+    if !adA && mx.cnameErr then .fail         -- `AuthLookupCNAME` fails
+    else if !adA && !aliasAD then .none       -- non-authenticated CNAME record: skip
+    else match mx.tlsa with                   -- `AuthLookupTLSA(rname)`
+      | .servfail => .fail
+      | t =>
+        if t != .none && canonTlsaAD mx then .recs t
+        else lookupInitial mx.tlsaI mx.tlsaIAD
 
 inductive Verdict | noReq | auth | err
 deriving DecidableEq
